@@ -3,6 +3,7 @@
 -/
 import AnthemModel.Syntax.Wire
 import AnthemModel.Model.Strong
+import AnthemModel.Model.External
 namespace Anthem
 open Sexp
 
@@ -17,5 +18,33 @@ def Direction.ofName : String → Option Direction
   | "universal" => some .universal | "forward" => some .forward | "backward" => some .backward | _ => none
 def FormulaRep.ofName : String → Option FormulaRep
   | "mu" => some .mu | "tau_star" => some .tauStar | _ => none
+
+end Anthem
+
+namespace Anthem
+open Sexp
+
+def SRole.ofName : String → Option SRole
+  | "assumption" => some .assumption | "spec" => some .spec | "lemma" => some .lemma
+  | "definition" => some .definition | "inductive_lemma" => some .inductiveLemma | _ => none
+
+def SAnn.ofSexp : Sexp → Option SAnn
+  | .list [.atom r, .atom d, .str n, f] => do
+    some ⟨← SRole.ofName r, ← Direction.ofName d, n, ← Formula.ofSexp f⟩
+  | _ => none
+
+def UGEntry.ofSexp : Sexp → Option UGEntry
+  | .list [.atom "in", p] => do some (.input (← Pred.ofSexp p))
+  | .list [.atom "out", p] => do some (.output (← Pred.ofSexp p))
+  | .list [.atom "ph", .str n, s] => do some (.placeholder n (← Srt.ofSexp s))
+  | .list [.atom "af", a] => do some (.formula (← SAnn.ofSexp a))
+  | _ => none
+
+def specSideOfSexp : Sexp → Option (Sum Asp.Program Specification)
+  | .list [.atom "prog", p] => do some (.inl (← Asp.programOfSexp p))
+  | .list [.atom "spec", s] => do some (.inr (← listOf SAnn.ofSexp s))
+  | _ => none
+
+def TaskError.name (e : TaskError) : String := (reprStr e).replace "Anthem.TaskError." ""
 
 end Anthem
